@@ -14,7 +14,9 @@ recorded in `St.log` (newest event first).
 The model follows the code with the three repairs of `patches/` applied:
 * `hawk_rtx_closeio`: an end of a two-way pipe that is already closed is skipped;
 * handler failures always leave an error number (so a failed `print` is a run error);
-* `flush_io` (fflush) keeps a handler failure sticky.
+* `flush_io` (fflush) keeps a handler failure sticky;
+* `hawk_rtx_closeio` / `hawk_rtx_nextio_write` flush before CLOSE / NEXT and report a failing flush;
+* `hawk_rtx_flushallios` reports a failing flush and `hawk_rtx_loop` then fails.
 -/
 namespace Hawk.Rio
 
@@ -197,19 +199,27 @@ def flushio (ρ : Nat → Reply) (s : St) (ok : OutKind) (name : Option String) 
 
 /-! ## `hawk_rtx_nextio_write` -/
 
+/-- the NEXT request itself, once the buffered output has been flushed -/
+def nextReq (ρ : Nat → Reply) (s : St) (x : Strm) : St × Int :=
+  match ρ s.calls with
+  | .fail => (s.emit (.nx x.sid x.key .fail), -1)
+  | .eof =>
+    let s1 := s.emit (.nx x.sid x.key .eof)
+    ({ s1 with chain := modifyFirst (hasKey x.key) (fun y => { y with outEos := true }) s1.chain }, 0)
+  | .accept k =>
+    let s1 := s.emit (.nx x.sid x.key (.accept k))
+    ({ s1 with chain := modifyFirst (hasKey x.key) (fun y => { y with outEof := false }) s1.chain }, 1)
+
+/-- FLUSH comes first (the handler closes the current stream when it opens the next one): a failing
+flush fails the call without switching (repair `rio-close-reports-unwritten-output`) -/
 def nextioWrite (ρ : Nat → Reply) (s : St) (ok : OutKind) (name : String) : St × Int :=
   match findKey s.chain (ok.key name) with
   | none => (s, -1)   -- "should never happen": HAWK_EINTERN
   | some x =>
     if x.outEos then (s, 0)
     else match ρ s.calls with
-      | .fail => (s.emit (.nx x.sid x.key .fail), -1)
-      | .eof =>
-        let s1 := s.emit (.nx x.sid x.key .eof)
-        ({ s1 with chain := modifyFirst (hasKey x.key) (fun y => { y with outEos := true }) s1.chain }, 0)
-      | .accept k =>
-        let s1 := s.emit (.nx x.sid x.key (.accept k))
-        ({ s1 with chain := modifyFirst (hasKey x.key) (fun y => { y with outEof := false }) s1.chain }, 1)
+      | .fail => (s.emit (.fl x.sid x.key false), -1)
+      | _ => nextReq ρ (s.emit (.fl x.sid x.key true)) x
 
 /-! ## `hawk_rtx_closeio` (with the repaired half-close logic) -/
 
@@ -234,20 +244,34 @@ def closeMode (opt : Option Bool) (x : Strm) : Option Rwc :=
 def closeHit (name : String) (opt : Option Bool) (x : Strm) : Bool :=
   decide (x.key.name = name) && (closeMode opt x).isSome
 
+/-- the stream has a write side: `p->type & (IO_MASK_WRITE | IO_MASK_RDWR)` -/
+def Strm.hasWriteSide (x : Strm) : Bool := decide (x.key.mask = .wr) || decide (x.key.mask = .rw)
+
+/-- FLUSH before CLOSE for a stream that has a write side (repair `rio-close-reports-unwritten-output`):
+returns the state after the call and whether the flush failed -/
+def preFlush (ρ : Nat → Reply) (s : St) (x : Strm) : St × Bool :=
+  if x.hasWriteSide then (s.emit (.fl x.sid x.key (!(ρ s.calls).isFail)), (ρ s.calls).isFail) else (s, false)
+
+/-- the CLOSE request for the node `x` the search stopped at; `ffail` = the preceding flush failed:
+the stream is closed all the same but the result is -1 -/
+def closeReq (ρ : Nat → Reply) (s : St) (name : String) (opt : Option Bool) (x : Strm) (ffail : Bool) : St × Int :=
+  let m := (closeMode opt x).getD .full
+  match ρ s.calls with
+  | .fail => (s.emit (.cl x.sid x.key m false false), -1)
+  | _ =>
+    let s1 := s.emit (.cl x.sid x.key m true false)
+    if x.key.mask = .rw ∧ x.rwcstate = .full ∧ m ≠ .full then
+      -- one end closed: keep the node, remember which end
+      ({ s1 with chain := modifyFirst (closeHit name opt) (fun y => { y with rwcstate := m }) s1.chain }, if ffail then -1 else 0)
+    else
+      ({ s1 with chain := s1.chain.eraseP (closeHit name opt) }, if ffail then -1 else 0)
+
 def closeio (ρ : Nat → Reply) (s : St) (name : String) (opt : Option Bool) : St × Int :=
   match s.chain.find? (closeHit name opt) with
   | none => (s, -1)   -- HAWK_EIONMNF
   | some x =>
-    let m := (closeMode opt x).getD .full
-    match ρ s.calls with
-    | .fail => (s.emit (.cl x.sid x.key m false false), -1)
-    | _ =>
-      let s1 := s.emit (.cl x.sid x.key m true false)
-      if x.key.mask = .rw ∧ x.rwcstate = .full ∧ m ≠ .full then
-        -- one end closed: keep the node, remember which end
-        ({ s1 with chain := modifyFirst (closeHit name opt) (fun y => { y with rwcstate := m }) s1.chain }, 0)
-      else
-        ({ s1 with chain := s1.chain.eraseP (closeHit name opt) }, 0)
+    let pf := preFlush ρ s x
+    closeReq ρ pf.1 name opt x pf.2
 
 /-! ## read side, as far as it shares the chain: `find_rio_in` + one `hawk_rtx_readio`
 under the harness contract "every READ reply is one complete record", so the input buffer is
@@ -313,6 +337,12 @@ def flushallLoop (ρ : Nat → Reply) : List Strm → St → St
 
 def flushall (ρ : Nat → Reply) (s : St) : St := flushallLoop ρ s.chain s
 
+/-- the return value of the repaired `hawk_rtx_flushallios`: a stream that has a write side could not be
+flushed.  `c` is the call number of the FLUSH sent to the head of the list (one call per node, in chain order) -/
+def flushallFails (ρ : Nat → Reply) : List Strm → Nat → Bool
+  | [], _ => false
+  | x :: xs, c => ((ρ c).isFail && x.hasWriteSide) || flushallFails ρ xs (c + 1)
+
 def clearLoop (ρ : Nat → Reply) : List Strm → St → St
   | [], s => { s with chain := [] }
   | x :: xs, s => clearLoop ρ xs { s.emit (.cl x.sid x.key .full (!(ρ s.calls).isFail) true) with chain := xs }
@@ -340,7 +370,7 @@ def step (ρ : Nat → Reply) (s : St) : Op → St × Int
   | .next ok name => nextioWrite ρ s ok name
   | .close name opt => closeio ρ s name opt
   | .read ik name fuel => readio ρ fuel s ik name
-  | .flushall => (flushall ρ s, 0)
+  | .flushall => (flushall ρ s, if flushallFails ρ s.chain s.calls then -1 else 0)
 
 /-- run a history; the results come out in program order -/
 def exec (ρ : Nat → Reply) : St → List Op → St × List Int
@@ -441,10 +471,11 @@ def runStmts (ρ : Nat → Reply) (cfg : Cfg) : List Stmt → St → St × Bool
     let r := stmt ρ cfg s st
     if r.2 = .runerr ∨ r.2 = .hang then (r.1, true) else runStmts ρ cfg rest r.1
 
-/-- `hawk_rtx_loop` (BEGIN block, then flush everything) -/
+/-- `hawk_rtx_loop` (BEGIN block, then flush everything).  The flag is `true` when the block did not run to its
+end or — repair `rio-final-flush-failure-fails-the-run` — the final flush of a stream with a write side failed -/
 def loop (ρ : Nat → Reply) (cfg : Cfg) (prog : List Stmt) : St × Bool :=
   let r := runStmts ρ cfg prog St.init
-  (flushall ρ r.1, r.2)
+  (flushall ρ r.1, r.2 || flushallFails ρ r.1.chain r.1.calls)
 
 /-- `hawk_rtx_loop` followed by `hawk_rtx_close` -/
 def runProgram (ρ : Nat → Reply) (cfg : Cfg) (prog : List Stmt) : St × Bool :=
